@@ -1,4 +1,4 @@
-CONSTANTS MaxN = 6  MaxK = 3
+CONSTANTS MaxN = 6  MaxK = 4
 SPECIFICATION Spec
 INVARIANT InvNoLeak
 INVARIANT InvDone
